@@ -113,6 +113,16 @@ type searchCfg struct {
 	// then: moves played on the board (same table kept) before the search with index thenAt
 	then   []string
 	thenAt int
+	// ex: "" = full exploration; "checks" = captures and checking moves (a predicate that looks at the board
+	// after the move)
+	ex string
+}
+
+// checksOrCaptures explores captures (en passant included) and moves that give check.
+func checksOrCaptures(ctx context.Context, b *board.Board) (board.MovePriorityFn, board.MovePredicateFn) {
+	return search.MVVLVA, func(m board.Move) bool {
+		return m.IsCaptureOrEnPassant() || b.Position().IsChecked(b.Turn())
+	}
 }
 
 func (cfg searchCfg) String() string {
@@ -120,7 +130,11 @@ func (cfg searchCfg) String() string {
 	for _, d := range cfg.depths {
 		ds = append(ds, fmt.Sprint(d))
 	}
-	return fmt.Sprintf("depths=%s q=%s tt=%s low=%s high=%s cancel=%d", strings.Join(ds, ","), b01(cfg.quiet), cfg.tt, scoreTok(cfg.low), scoreTok(cfg.high), cfg.cancel)
+	ex := ""
+	if cfg.ex != "" {
+		ex = " ex=" + cfg.ex
+	}
+	return fmt.Sprintf("depths=%s q=%s tt=%s low=%s high=%s cancel=%d%s", strings.Join(ds, ","), b01(cfg.quiet), cfg.tt, scoreTok(cfg.low), scoreTok(cfg.high), cfg.cancel, ex)
 }
 
 func makeTT(spec string) search.TranspositionTable {
@@ -172,10 +186,14 @@ func runSearchCase(c *caseCtx, zt *board.ZobristTable, zseed int64, fenStr strin
 	}
 
 	var s search.Search
+	var explore search.Exploration
+	if cfg.ex == "checks" {
+		explore = checksOrCaptures
+	}
 	if cfg.quiet {
-		s = search.AlphaBeta{Eval: search.Quiescence{Explore: capturesOnly, Eval: search.Leaf{Eval: eval.Material{}}}}
+		s = search.AlphaBeta{Explore: explore, Eval: search.Quiescence{Explore: capturesOnly, Eval: search.Leaf{Eval: eval.Material{}}}}
 	} else {
-		s = search.AlphaBeta{Eval: search.Leaf{Eval: eval.Material{}}}
+		s = search.AlphaBeta{Explore: explore, Eval: search.Leaf{Eval: eval.Material{}}}
 	}
 	inner := makeTT(cfg.tt)
 	var results []string
@@ -311,6 +329,15 @@ func randomWindowScore(c *caseCtx) eval.Score {
 			k = -k
 		}
 		return eval.MateInXScore(int8(k))
+	case 4:
+		// heuristic bounds on the scale of evaluators that count in milli-pawns or ratios (TUROCHAMP's
+		// material term reaches +-20000): still below every winning and above every losing mate score
+		big := []float32{10000, 10000.5, 10001, 12000, 20000.68, 1e6, 3e38}
+		v := big[c.r.Intn(len(big))]
+		if c.r.Intn(2) == 0 {
+			v = -v
+		}
+		return eval.HeuristicScore(eval.Pawns(v))
 	default:
 		return eval.HeuristicScore(eval.Pawns(float32(c.r.Intn(25) - 12)))
 	}
@@ -396,6 +423,18 @@ func casesSearch(c *caseCtx, prop string) {
 			cfg.depths = []int{1 + c.r.Intn(maxd)}
 			cfg.quiet = c.r.Intn(3) == 0
 			runSearchCase(c, zt, zseed, pick(), nil, cfg)
+		}
+		// a selective exploration whose predicate looks at the position after the move (captures and checks)
+		for i := 0; i < c.scale(30, 600); i++ {
+			cfg := full
+			cfg.depths = []int{1 + c.r.Intn(maxd)}
+			cfg.quiet = c.r.Intn(3) == 0
+			cfg.ex = "checks"
+			f := pick()
+			if i < len(searchFENs) {
+				f = searchFENs[i]
+			}
+			runSearchCase(c, zt, zseed, f, nil, cfg)
 		}
 		// histories: repetition inside the tree / draw claimable at the root
 		cfg := full
@@ -499,6 +538,7 @@ func casesSearch(c *caseCtx, prop string) {
 		}
 		gameTableChecks(c)
 		consoleTableChecks(c)
+		engineResetTableChecks(c)
 	case "C12":
 		for i := 0; i < c.scale(25, 400); i++ {
 			f := pick()
@@ -516,6 +556,66 @@ func casesSearch(c *caseCtx, prop string) {
 				runHaltCase(c, zt, zseed, f, cfg, n)
 			}
 		}
+		// a search halted one move down the line, then the move taken back and the parent searched with the
+		// same table: what the halted search left behind must not change the parent's result either
+		nparent := 0
+		for i := 0; i < c.scale(12, 240); i++ {
+			f := pick()
+			if i < 2 {
+				f = "4r1k1/3n1ppp/8/p7/1P6/8/5PPP/3R2K1 w - - 0 1"
+			}
+			pos, turn, np, fm, err := fen.Decode(f)
+			if err != nil || pos == nil {
+				continue
+			}
+			ms := legalMoves(pos, turn)
+			if len(ms) == 0 {
+				continue
+			}
+			m := ms[c.r.Intn(len(ms))]
+			if i < 2 {
+				for _, x := range ms {
+					if x.IsCapture() {
+						m = x
+					}
+				}
+			}
+			d := 1 + c.r.Intn(2)
+			quiet := c.r.Intn(3) == 0
+			mk := func() search.Search {
+				if quiet {
+					return search.AlphaBeta{Eval: search.Quiescence{Explore: capturesOnly, Eval: search.Leaf{Eval: eval.Material{}}}}
+				}
+				return search.AlphaBeta{Eval: search.Leaf{Eval: eval.Material{}}}
+			}
+			// control: the parent at depth d+1 on a fresh table
+			bc := board.NewBoard(zt, pos, turn, np, fm)
+			_, want, _, errc := mk().Search(context.Background(), &search.Context{TT: makeTT("size:65536")}, bc, d+1)
+			if errc != nil {
+				continue
+			}
+			for _, n := range []int{1, 2, 3, 5, 8, 13, 21, 34, 55} {
+				b := board.NewBoard(zt, pos, turn, np, fm)
+				if !b.PushMove(m) {
+					break
+				}
+				tt := makeTT("size:65536")
+				cctx := newCountingCtx(n)
+				_, _, _, err1 := mk().Search(cctx, &search.Context{TT: tt}, b, d)
+				b.PopMove()
+				_, got, _, err2 := mk().Search(context.Background(), &search.Context{TT: tt}, b, d+1)
+				nparent++
+				if err2 != nil {
+					continue
+				}
+				le := func(a, b eval.Score) bool { return !b.Less(a) }
+				if !(le(got, want) && le(want, got)) {
+					fmt.Printf("IMPLVIOL haltparent %s move=%s depth=%d q=%s cancel=%d halted=%v :: after the halted search of the position one move on, the search of this position with the same table returns %s, without it %s prop=C12 key=left-behind\n", f, uciMove(m), d, b01(quiet), n, err1 != nil, scoreTok(got), scoreTok(want))
+					break
+				}
+			}
+		}
+		fmt.Printf("COUNT haltparent %d\n", nparent)
 		// roots at which a draw can be claimed on entry (threefold on the board, clock at 100): the halted
 		// search must hand the board back with that result
 		type hroot struct {
